@@ -55,6 +55,10 @@ def run(chk):
             isstr = e["type"]["name"] == "string"
             declared = [v["value"] for v in e["values"]]
             custom = (["zz.custom", ""] if isstr else [max(declared) + 977, 0 if 0 not in declared else max(declared) + 5])
+            if not isstr:
+                # the ends of the base type's range (uinteger / integer), as far as they are not declared values
+                base = next((e["type"]["name"] for e in mmv.doc["enumerations"] if e["name"] == en), "integer")
+                custom += [b for b in ([0, 2**31 - 1] if base == "uinteger" else [-2**31, 2**31 - 1]) if b not in declared and b not in custom]
             if chk.tier == "thorough":
                 custom += ([rng.choice(["é", "a b", "X" * 40])] if isstr else [rng.randrange(1000, 2**31 - 1)])
             base = mmv.value(mmlib.ref(sn), 0, 0, 0)
